@@ -58,6 +58,7 @@ type Exec struct {
 	funcsSeen  map[string]bool
 	lemmaErrors []string
 	pure        int
+	ufuns       map[string]*Ghost
 	retFrame    *Frame
 	hmArrays    map[string]string
 	heapViews   map[string]*heapViewInfo
@@ -71,7 +72,7 @@ func newExec(prog *ssa.Program, fset *token.FileSet) *Exec {
 	return &Exec{prog: prog, fset: fset, reg: newRegistry(), contracts: map[string]*PkgContracts{}, active: map[string]bool{},
 		sites: map[siteKey]*siteInfo{}, oblSite: map[*Obligation]*siteInfo{}, notes: map[string]bool{}, trusted: map[string]bool{},
 		globals: map[*ssa.Global]*Cell{}, loopCache: map[*ssa.Function][]*loopInfo{}, modCache: map[*ssa.Function]*modSet{},
-		inlineMax: 6, maxPath: 200000, ghostDone: map[string]bool{}, ghosts: map[string]*Ghost{}, ghostSig: map[string][]string{}, funcsSeen: map[string]bool{}}
+		inlineMax: 6, maxPath: 200000, ghostDone: map[string]bool{}, ghosts: map[string]*Ghost{}, ghostSig: map[string][]string{}, funcsSeen: map[string]bool{}, ufuns: map[string]*Ghost{}}
 }
 
 func (x *Exec) fresh(prefix string) string {
